@@ -544,6 +544,12 @@ func ruleRec(c *Ctx) {
 						if st.Parent() == fn && dominates(st, call) {
 							ok = true
 						}
+						// ... or through a flag helper (clearFlag) called before the request
+						for _, c2 := range callsIn(fn) {
+							if sf := c2.Common().StaticCallee(); sf != nil && sf == st.Parent() && sf.Parent() == nil && len(sf.Blocks) <= 2 && dominates(c2, call) {
+								ok = true
+							}
+						}
 					}
 				}
 			}
